@@ -383,3 +383,9 @@ def run(ctx):
     ctx.run_clause("C05.b", c05b)
     ctx.run_clause("C05.c", c05c)
     ctx.run_clause("C05.d", c05d)
+    # a panic of a callee's executor inside an unordered group surfaces as a JoinError of its chunk: the join loop must
+    # treat it as `recompute`, never as clean (rule shared with C01.n)
+    from . import C01
+    ctx.alias = {"C01.n": "C05.f"}
+    ctx.run_clause("C05.f", C01.c01n_join)
+    ctx.alias = {}
